@@ -292,7 +292,7 @@ def c01(tier, seed):
 
 
 def c03(tier, seed):
-    ops = BASE + CONV_CORE + UNIQ + ["Borrow", "Enter", "Exit", "TryUnwrap", "MakeMut"]
+    ops = BASE + CONV_CORE + UNIQ + ["Borrow", "Enter", "Exit", "TryUnwrap", "MakeMut", "Unsize", "UnsizeUnq", "ShareableDyn"]
     mops = ["clone", "read", "drop", "get_mut"]
     if tier == "quick":
         return [sized("C03", tier, "sized_uniq_q", ops, 3, 2, 1),
